@@ -447,15 +447,16 @@ theorem setEval_keep (f : List ℝ → ℝ) {params B : PList ℝ} (hc : Ctx par
 
 /-- invariant of the cross-derivative loops: the wrapped function is at the base point up to the two
 variables of the previous pair (at the start: the variable probed last by the first loop) -/
-def CI (f : List ℝ → ℝ) (B : PList ℝ) (w0 : W ℝ) (cl : CLoop ℝ) : Prop :=
-  cl.w.fn.OK f ∧ Dev B cl.w.fn.params (fun m => m = cl.l1 ∨ m = cl.l2) ∧ Frame w0 cl.w ∧ cl.w.f2 = w0.f2
+def CI (f : List ℝ → ℝ) (params B : PList ℝ) (w0 : W ℝ) (cl : CLoop ℝ) : Prop :=
+  cl.w.fn.OK f ∧ Dev B cl.w.fn.params (fun m => m = cl.l1 ∨ m = cl.l2) ∧ Frame w0 cl.w ∧ cl.w.f2 = w0.f2 ∧
+  has params cl.l1 = true ∧ has params cl.l2 = true
 
 
 theorem crossPair_CI (f : List ℝ → ℝ) {params B : PList ℝ} (hc : Ctx params B) {w0 : W ℝ} (cl : CLoop ℝ)
-    (hCI : CI f B w0 cl) (i j : Nat) (var1 var2 : Name) :
-    ∀ r, crossPair f params cl i j var1 var2 = r → r.2 = none → CI f B w0 r.1 := by
+    (hCI : CI f params B w0 cl) (i j : Nat) (var1 var2 : Name) :
+    ∀ r, crossPair f params cl i j var1 var2 = r → r.2 = none → CI f params B w0 r.1 := by
   intro r hr hnone
-  obtain ⟨hok, hD, hfr, hslot⟩ := hCI
+  obtain ⟨hok, hD, hfr, hslot, _, _⟩ := hCI
   unfold crossPair at hr
   simp only [] at hr
   split at hr
@@ -540,7 +541,387 @@ theorem crossPair_CI (f : List ℝ → ℝ) {params B : PList ℝ} (hc : Ctx par
                   subst hr
                   exact ⟨c2, c1, ⟨hfr.scheme, hfr.h, hfr.vars, hfr.c1, hfr.c2, hfr.cx,
                     by simp [c3, b3, a3, g4, hfr.kind], by simp [c4, b4, a4, g5, hfr.en1],
-                    by simp [c5, b5, a5, g6, hfr.en2]⟩, hslot⟩
+                    by simp [c5, b5, a5, g6, hfr.en2]⟩, hslot,
+                    (has_iff params var1).mpr (hn0 ▸ List.mem_map_of_mem (hmem p0 (by simp))),
+                    (has_iff params var2).mpr (hn1 ▸ List.mem_map_of_mem (hmem p1 (by simp)))⟩
     · subst hr; simp at hnone
+
+
+theorem crossRow_CI (f : List ℝ → ℝ) {params B : PList ℝ} (hc : Ctx params B) {w0 : W ℝ} (i : Nat) (var1 : Name) :
+    ∀ (vs : List Name) (j : Nat) (cl : CLoop ℝ), CI f params B w0 cl →
+      (crossRow f params i var1 vs j cl).2 = none → CI f params B w0 (crossRow f params i var1 vs j cl).1 := by
+  intro vs
+  induction vs with
+  | nil => intro j cl h _; exact h
+  | cons v vs ih =>
+    intro j cl h hnone
+    unfold crossRow at hnone ⊢
+    split
+    · rename_i hji
+      rw [if_pos hji] at hnone
+      split
+      · rename_i hd; rw [hd] at hnone; simp at hnone
+      · rename_i d hd
+        rw [hd] at hnone
+        simp only [] at hnone
+        apply ih _ _ _ hnone
+        obtain ⟨h1, h2, h3, h4, h5, h6⟩ := h
+        exact ⟨h1, h2, ⟨h3.scheme, h3.h, h3.vars, h3.c1, h3.c2, h3.cx, h3.kind, h3.en1, h3.en2⟩, h4, h5, h6⟩
+    · rename_i hji
+      rw [if_neg hji] at hnone
+      split
+      · rename_i hh; rw [if_pos hh] at hnone; exact ih _ _ h hnone
+      · rename_i hh
+        rw [if_neg hh] at hnone
+        rcases hp : crossPair f params cl i j var1 v with ⟨cl', e⟩
+        rw [hp] at hnone
+        cases e with
+        | some e => simp at hnone
+        | none =>
+          simp only [] at hnone ⊢
+          exact ih _ _ (crossPair_CI f hc cl h i j var1 v _ hp rfl) hnone
+
+theorem crossGo_CI (f : List ℝ → ℝ) {params B : PList ℝ} (hc : Ctx params B) {w0 : W ℝ} (all : List Name) :
+    ∀ (vs : List Name) (i : Nat) (cl : CLoop ℝ), CI f params B w0 cl →
+      (crossGo f params all vs i cl).2 = none → CI f params B w0 (crossGo f params all vs i cl).1 := by
+  intro vs
+  induction vs with
+  | nil => intro i cl h _; exact h
+  | cons v vs ih =>
+    intro i cl h hnone
+    unfold crossGo at hnone ⊢
+    split
+    · rename_i hh; rw [if_pos hh] at hnone; exact ih _ _ h hnone
+    · rename_i hh
+      rw [if_neg hh] at hnone
+      rcases hp : crossRow f params i v all 0 cl with ⟨cl', e⟩
+      rw [hp] at hnone
+      have := crossRow_CI f hc i v all 0 cl h
+      rw [hp] at this
+      cases e with
+      | some e => simp at hnone
+      | none =>
+        simp only [] at hnone ⊢
+        exact ih _ _ (this rfl) hnone
+
+
+/-! ### back to the base point -/
+
+@[simp] theorem enable1_params (fn : Fn ℝ) (b : Bool) : (fn.enable1 b).params = fn.params := by
+  unfold Fn.enable1; split <;> rfl
+@[simp] theorem enable2_params (fn : Fn ℝ) (b : Bool) : (fn.enable2 b).params = fn.params := by
+  unfold Fn.enable2; split <;> rfl
+@[simp] theorem enable1_fval (fn : Fn ℝ) (b : Bool) : (fn.enable1 b).fval = fn.fval := by
+  unfold Fn.enable1; split <;> rfl
+@[simp] theorem enable2_fval (fn : Fn ℝ) (b : Bool) : (fn.enable2 b).fval = fn.fval := by
+  unfold Fn.enable2; split <;> rfl
+@[simp] theorem enable1_kind (fn : Fn ℝ) (b : Bool) : (fn.enable1 b).kind = fn.kind := by
+  unfold Fn.enable1; split <;> rfl
+@[simp] theorem enable2_kind (fn : Fn ℝ) (b : Bool) : (fn.enable2 b).kind = fn.kind := by
+  unfold Fn.enable2; split <;> rfl
+theorem enable1_OK (f : List ℝ → ℝ) (fn : Fn ℝ) (b : Bool) (h : fn.OK f) : (fn.enable1 b).OK f := by
+  unfold Fn.OK at *; simp [h]
+theorem enable2_OK (f : List ℝ → ℝ) (fn : Fn ℝ) (b : Bool) (h : fn.OK f) : (fn.enable2 b).OK f := by
+  unfold Fn.OK at *; simp [h]
+
+/-- `function_->setParameters(parameters)` brings back every displaced parameter of `parameters` -/
+theorem restore_all (f : List ℝ → ℝ) {params B : PList ℝ} (hc : Ctx params B) (hpnd : (names params).Nodup) (fn : Fn ℝ)
+    {S : Name → Prop} (hD : Dev B fn.params S) (hok : fn.OK f) (hS : ∀ n, S n → has params n = true) :
+    ((fn.setParameters f params).2 = none → (fn.setParameters f params).1.params = B) ∧
+    (fn.setParameters f params).1.OK f ∧ (fn.setParameters f params).1.kind = fn.kind ∧
+    (fn.setParameters f params).1.en1 = fn.en1 ∧ (fn.setParameters f params).1.en2 = fn.en2 := by
+  obtain ⟨h1, _, h3, h4, h5, h6⟩ := setParameters_dev f hc fn params hpnd (fun _ => False) hD hok (by
+    intro b hb _
+    cases hf : find? params b.name with
+    | none =>
+      simp only []
+      intro hs
+      exact find?_none hf ((has_iff params b.name).mp (hS _ hs))
+    | some q =>
+      simp only []
+      have := find?_some hf
+      exact (hc.sync q this.1 b hb this.2.symm).symm)
+  exact ⟨fun h => (h1 h).eq, h3, h4, h5, h6⟩
+
+/-- `function_->setParameters(parameters.createSubList(lastVar))` brings back the last variable -/
+theorem restore_one (f : List ℝ → ℝ) {params B : PList ℝ} (hc : Ctx params B) (fn : Fn ℝ) (l : Name) (q : PList ℝ)
+    (hsub : subNames params [l] = .ok q) (hD : Dev B fn.params (fun m => some m = some l)) (hok : fn.OK f) :
+    ((fn.setParameters f q).2 = none → (fn.setParameters f q).1.params = B) ∧
+    (fn.setParameters f q).1.OK f ∧ (fn.setParameters f q).1.kind = fn.kind ∧
+    (fn.setParameters f q).1.en1 = fn.en1 ∧ (fn.setParameters f q).1.en2 = fn.en2 := by
+  obtain ⟨hn, hmem, hnd⟩ := subNames_spec params _ q hsub
+  obtain ⟨h1, _, h3, h4, h5, h6⟩ := setParameters_dev f hc fn q hnd (fun _ => False) hD hok (by
+    intro b hb _
+    cases hf : find? q b.name with
+    | none =>
+      simp only []
+      intro hs
+      injection hs with hs
+      apply find?_none hf
+      rw [hn, hs]; simp
+    | some x =>
+      simp only []
+      have := find?_some hf
+      exact (hc.sync x (hmem x this.1) b hb this.2.symm).symm)
+  exact ⟨fun h => (h1 h).eq, h3, h4, h5, h6⟩
+
+
+/-- what `updateDerivatives` never touches -/
+structure Keep (w w' : W ℝ) : Prop where
+  scheme : w'.scheme = w.scheme
+  h : w'.h = w.h
+  vars : w'.vars = w.vars
+  c1 : w'.c1 = w.c1
+  c2 : w'.c2 = w.c2
+  cx : w'.cx = w.cx
+  kind : w'.fn.kind = w.fn.kind
+
+theorem Frame.keep {w0 w : W ℝ} (h : Frame w0 w) : Keep w0 w :=
+  ⟨h.scheme, h.h, h.vars, h.c1, h.c2, h.cx, h.kind⟩
+
+theorem Keep.trans {a b c : W ℝ} (h1 : Keep a b) (h2 : Keep b c) : Keep a c :=
+  ⟨h2.scheme.trans h1.scheme, h2.h.trans h1.h, h2.vars.trans h1.vars, h2.c1.trans h1.c1, h2.c2.trans h1.c2,
+   h2.cx.trans h1.cx, h2.kind.trans h1.kind⟩
+
+@[simp] theorem Wenable2_params (w : W ℝ) (b : Bool) : (w.enable2 b).params = w.fn.params := by
+  unfold W.enable2; split <;> simp
+@[simp] theorem Wenable2_kind (w : W ℝ) (b : Bool) : (w.enable2 b).kind = w.fn.kind := by
+  unfold W.enable2; split <;> simp
+theorem Wenable2_OK (f : List ℝ → ℝ) (w : W ℝ) (b : Bool) (h : w.fn.OK f) : (w.enable2 b).OK f := by
+  unfold W.enable2; split
+  · exact h
+  · exact enable2_OK f _ _ h
+
+/-- the end of the computing branch brings the wrapped function back to the base point -/
+theorem finish_spec (f : List ℝ → ℝ) {params B : PList ℝ} (hc : Ctx params B) (hpnd : (names params).Nodup)
+    (lastVar : Option Name) (all : Bool) (w : W ℝ) (hok : w.fn.OK f) {S : Name → Prop}
+    (hD : Dev B w.fn.params S) (h0 : lastVar = none → ∀ n, ¬ S n)
+    (h1 : all = false → ∀ n, S n → some n = lastVar) (h2 : ∀ n, S n → has params n = true) :
+    ∀ r, finish f params lastVar all w = r → r.2 = none →
+      r.1.fn.params = B ∧ r.1.fn.OK f ∧ Keep w r.1 ∧ r.1.f1 = w.f1 ∧ r.1.f2 = w.f2 ∧ r.1.f3 = w.f3 := by
+  intro r hr hnone
+  unfold finish at hr
+  simp only [] at hr
+  have hokE : (({ w with fn := w.fn.enable1 w.c1 } : W ℝ).enable2 w.c2).OK f :=
+    Wenable2_OK f _ _ (enable1_OK f _ _ hok)
+  have hDE : Dev B (({ w with fn := w.fn.enable1 w.c1 } : W ℝ).enable2 w.c2).params S := by
+    simp only [Wenable2_params, enable1_params]; exact hD
+  have hkE : (({ w with fn := w.fn.enable1 w.c1 } : W ℝ).enable2 w.c2).kind = w.fn.kind := by simp
+  split at hr
+  · subst hr
+    refine ⟨?_, hokE, ⟨rfl, rfl, rfl, rfl, rfl, rfl, hkE⟩, rfl, rfl, rfl⟩
+    exact (hDE.mono (fun n hn => h0 rfl n hn)).eq
+  · rename_i l
+    split at hr
+    · rename_i hall
+      obtain ⟨g1, g2, g3, _, _⟩ := restore_all f hc hpnd _ hDE hokE h2
+      subst hr
+      exact ⟨g1 hnone, g2, ⟨rfl, rfl, rfl, rfl, rfl, rfl, by simp only []; rw [g3, hkE]⟩, rfl, rfl, rfl⟩
+    · rename_i hall
+      have hall' : all = false := by simpa using hall
+      split at hr
+      · subst hr; simp at hnone
+      · rename_i q hsub
+        have hD1 : Dev B (({ w with fn := w.fn.enable1 w.c1 } : W ℝ).enable2 w.c2).params (fun m => some m = some l) :=
+          hDE.mono (fun n hn => h1 hall' n hn)
+        obtain ⟨g1, g2, g3, _, _⟩ := restore_one f hc _ l q hsub hD1 hokE
+        subst hr
+        exact ⟨g1 hnone, g2, ⟨rfl, rfl, rfl, rfl, rfl, rfl, by simp only []; rw [g3, hkE]⟩, rfl, rfl, rfl⟩
+
+
+/-! ### `updateDerivatives` is transparent -/
+
+theorem nanAll_fn (w : W ℝ) : (nanAll w).fn = w.fn := rfl
+
+/-- the first `function_->setParameters(parameters)` of `updateDerivatives`, when the wrapped
+function already holds the values of `parameters`, changes nothing -/
+theorem first_set (f : List ℝ → ℝ) {params : PList ℝ} (fn : Fn ℝ) (hown : Own fn) (hok : fn.OK f)
+    (hsync : Synced params fn.params) (hpnd : (names params).Nodup) :
+    ((fn.setParameters f params).2 = none → (fn.setParameters f params).1.params = fn.params) ∧
+    (fn.setParameters f params).1.OK f ∧ (fn.setParameters f params).1.kind = fn.kind ∧
+    (fn.setParameters f params).1.en1 = fn.en1 ∧ (fn.setParameters f params).1.en2 = fn.en2 :=
+  restore_all f ⟨hown.1, hown.2, hsync⟩ hpnd fn (Dev.refl fn.params (fun _ => False)) hok (fun _ h => h.elim)
+
+theorem update3_spec (f : List ℝ → ℝ) (w : W ℝ) (params : PList ℝ) (hown : Own w.fn) (hok : w.fn.OK f)
+    (hsync : Synced params w.fn.params) (hpnd : (names params).Nodup) :
+    ∀ r, update3 f w params = r → r.2 = none →
+      r.1.fn.params = w.fn.params ∧ r.1.fn.OK f ∧ Keep w r.1 ∧ r.1.f2 = f (values w.fn.params) := by
+  intro r hr hnone
+  have hc : Ctx params w.fn.params := ⟨hown.1, hown.2, hsync⟩
+  unfold update3 at hr
+  split at hr
+  · -- computing branch
+    simp only [] at hr
+    have hown0 : Own ((w.fn.enable1 false).enable2 false) := by unfold Own; simp; exact hown
+    have hok0 : ((w.fn.enable1 false).enable2 false).OK f := enable2_OK f _ _ (enable1_OK f _ _ hok)
+    have h0 := first_set f ((w.fn.enable1 false).enable2 false) hown0 hok0 (by simpa using hsync) hpnd
+    split at hr
+    · subst hr; simp at hnone
+    · rename_i fn1 hs1
+      rw [hs1] at h0
+      obtain ⟨g1, g2, g3, _, _⟩ := h0
+      have hp1 : fn1.params = w.fn.params := by have := g1 rfl; simpa using this
+      simp only [] at g2 g3
+      have hval : fn1.fval = f (values w.fn.params) := by rw [← hp1]; exact g2
+      split at hr
+      · subst hr
+        exact ⟨by rw [nanAll_fn]; exact hp1, by rw [nanAll_fn]; exact g2,
+          ⟨rfl, rfl, rfl, rfl, rfl, rfl, by rw [nanAll_fn]; simp [g3]⟩, hval⟩
+      · -- the loop
+        have hLI0 : LI f params w.fn.params { w with fn := fn1, f2 := fn1.fval } (fun w => w.f2)
+            { w := { w with fn := fn1, f2 := fn1.fval }, p := [], lastVar := none } :=
+          ⟨g2, (by rw [hp1]; exact Dev.refl _ _), (fun l h => by cases h), Frame.refl _, rfl⟩
+        have hloop := loopGo_LI f (step3 f params) (fun lp h i var r => step3_LI f hc lp h i var r)
+          w.vars 0 _ hLI0
+        split at hr
+        · subst hr; simp at hnone
+        · rename_i lp hl
+          rw [hl] at hloop
+          obtain ⟨l1, l2, l3, l4, l5⟩ := hloop rfl
+          simp only [] at l4 l5
+          have hkeep0 : Keep w { w with fn := fn1, f2 := fn1.fval } := ⟨rfl, rfl, rfl, rfl, rfl, rfl, by simp [g3]⟩
+          split at hr
+          · -- cross derivatives
+            split at hr
+            · rename_i hlv
+              obtain ⟨q1, q2, q3, _, q5, _⟩ := finish_spec f hc hpnd lp.lastVar true lp.w l1 l2
+                (fun h n hn => by rw [h] at hn; cases hn) (fun h => by cases h)
+                (fun n hn => l3 n hn.symm) r hr hnone
+              exact ⟨q1, q2, hkeep0.trans (l4.keep.trans q3), by rw [q5, l5, hval]⟩
+            · rename_i l hlv
+              have hCI0 : CI f params w.fn.params { w with fn := fn1, f2 := fn1.fval } { w := lp.w, l1 := l, l2 := l } :=
+                ⟨l1, l2.mono (fun n hn => by rw [hlv] at hn; injection hn with hn; exact Or.inl hn), l4, l5,
+                  l3 l hlv, l3 l hlv⟩
+              have hcross := crossGo_CI f hc lp.w.vars lp.w.vars 0 _ hCI0
+              split at hr
+              · subst hr; simp at hnone
+              · rename_i cl hcl
+                rw [hcl] at hcross
+                obtain ⟨c1, c2, c3, c4, c5, c6⟩ := hcross rfl
+                obtain ⟨q1, q2, q3, _, q5, _⟩ := finish_spec f hc hpnd lp.lastVar true cl.w c1 c2
+                  (fun h => by rw [hlv] at h; cases h) (fun h => by cases h)
+                  (fun n hn => by rcases hn with h | h <;> (rw [h]; assumption)) r hr hnone
+                exact ⟨q1, q2, hkeep0.trans (c3.keep.trans q3), by rw [q5, c4, hval]⟩
+          · obtain ⟨q1, q2, q3, _, q5, _⟩ := finish_spec f hc hpnd lp.lastVar false lp.w l1 l2
+              (fun h n hn => by rw [h] at hn; cases hn) (fun _ n hn => hn)
+              (fun n hn => l3 n hn.symm) r hr hnone
+            exact ⟨q1, q2, hkeep0.trans (l4.keep.trans q3), by rw [q5, l5, hval]⟩
+  · -- nothing to compute
+    simp only [] at hr
+    have hown0 : Own ((w.fn.enable1 w.c1).enable2 w.c2) := by unfold Own; simp; exact hown
+    have hok0 : ((w.fn.enable1 w.c1).enable2 w.c2).OK f := enable2_OK f _ _ (enable1_OK f _ _ hok)
+    have h0 := first_set f ((w.fn.enable1 w.c1).enable2 w.c2) hown0 hok0 (by simpa using hsync) hpnd
+    split at hr
+    · subst hr; simp at hnone
+    · rename_i fn1 hs1
+      rw [hs1] at h0
+      obtain ⟨g1, g2, g3, _, _⟩ := h0
+      have hp1 : fn1.params = w.fn.params := by have := g1 rfl; simpa using this
+      subst hr
+      exact ⟨hp1, g2, ⟨rfl, rfl, rfl, rfl, rfl, rfl, by simpa using g3⟩, by simp only []; rw [← hp1]; exact g2⟩
+
+
+theorem update2_spec (f : List ℝ → ℝ) (w : W ℝ) (params : PList ℝ) (hown : Own w.fn) (hok : w.fn.OK f)
+    (hsync : Synced params w.fn.params) (hpnd : (names params).Nodup) :
+    ∀ r, update2 f w params = r → r.2 = none →
+      r.1.fn.params = w.fn.params ∧ r.1.fn.OK f ∧ Keep w r.1 ∧ r.1.f1 = f (values w.fn.params) := by
+  intro r hr hnone
+  have hc : Ctx params w.fn.params := ⟨hown.1, hown.2, hsync⟩
+  unfold update2 at hr
+  split at hr
+  · simp only [] at hr
+    have hown0 : Own (w.fn.enable1 false) := by unfold Own; simp; exact hown
+    have hok0 : (w.fn.enable1 false).OK f := enable1_OK f _ _ hok
+    have h0 := first_set f (w.fn.enable1 false) hown0 hok0 (by simpa using hsync) hpnd
+    split at hr
+    · subst hr; simp at hnone
+    · rename_i fn1 hs1
+      rw [hs1] at h0
+      obtain ⟨g1, g2, g3, _, _⟩ := h0
+      have hp1 : fn1.params = w.fn.params := by have := g1 rfl; simpa using this
+      simp only [] at g2 g3
+      have hval : fn1.fval = f (values w.fn.params) := by rw [← hp1]; exact g2
+      split at hr
+      · subst hr
+        exact ⟨by rw [nanAll_fn]; exact hp1, by rw [nanAll_fn]; exact g2,
+          ⟨rfl, rfl, rfl, rfl, rfl, rfl, by rw [nanAll_fn]; simp [g3]⟩, hval⟩
+      · have hLI0 : LI f params w.fn.params { w with fn := fn1, f1 := fn1.fval } (fun w => w.f1)
+            { w := { w with fn := fn1, f1 := fn1.fval }, p := [], lastVar := none } :=
+          ⟨g2, (by rw [hp1]; exact Dev.refl _ _), (fun l h => by cases h), Frame.refl _, rfl⟩
+        have hloop := loopGo_LI f (step2 f params) (fun lp h i var r => step2_LI f hc lp h i var r)
+          w.vars 0 _ hLI0
+        split at hr
+        · subst hr; simp at hnone
+        · rename_i lp hl
+          rw [hl] at hloop
+          obtain ⟨l1, l2, l3, l4, l5⟩ := hloop rfl
+          simp only [] at l4 l5
+          have hkeep0 : Keep w { w with fn := fn1, f1 := fn1.fval } := ⟨rfl, rfl, rfl, rfl, rfl, rfl, by simp [g3]⟩
+          obtain ⟨q1, q2, q3, q4, _, _⟩ := finish_spec f hc hpnd lp.lastVar false lp.w l1 l2
+            (fun h n hn => by rw [h] at hn; cases hn) (fun _ n hn => hn)
+            (fun n hn => l3 n hn.symm) r hr hnone
+          exact ⟨q1, q2, hkeep0.trans (l4.keep.trans q3), by rw [q4, l5, hval]⟩
+  · simp only [] at hr
+    have hown0 : Own (({ w with fn := w.fn.enable1 w.c1 } : W ℝ).enable2 w.c2) := by unfold Own; simp; exact hown
+    have hok0 : (({ w with fn := w.fn.enable1 w.c1 } : W ℝ).enable2 w.c2).OK f :=
+      Wenable2_OK f _ _ (enable1_OK f _ _ hok)
+    have h0 := first_set f _ hown0 hok0 (by simpa using hsync) hpnd
+    split at hr
+    · subst hr; simp at hnone
+    · rename_i fn1 hs1
+      rw [hs1] at h0
+      obtain ⟨g1, g2, g3, _, _⟩ := h0
+      have hp1 : fn1.params = w.fn.params := by have := g1 rfl; simpa using this
+      subst hr
+      exact ⟨hp1, g2, ⟨rfl, rfl, rfl, rfl, rfl, rfl, by simpa using g3⟩, by simp only []; rw [← hp1]; exact g2⟩
+
+theorem update5_spec (f : List ℝ → ℝ) (w : W ℝ) (params : PList ℝ) (hown : Own w.fn) (hok : w.fn.OK f)
+    (hsync : Synced params w.fn.params) (hpnd : (names params).Nodup) :
+    ∀ r, update5 f w params = r → r.2 = none →
+      r.1.fn.params = w.fn.params ∧ r.1.fn.OK f ∧ Keep w r.1 ∧ r.1.f3 = f (values w.fn.params) := by
+  intro r hr hnone
+  have hc : Ctx params w.fn.params := ⟨hown.1, hown.2, hsync⟩
+  unfold update5 at hr
+  split at hr
+  · simp only [] at hr
+    have hown0 : Own ((w.fn.enable1 false).enable2 false) := by unfold Own; simp; exact hown
+    have hok0 : ((w.fn.enable1 false).enable2 false).OK f := enable2_OK f _ _ (enable1_OK f _ _ hok)
+    have h0 := first_set f ((w.fn.enable1 false).enable2 false) hown0 hok0 (by simpa using hsync) hpnd
+    split at hr
+    · subst hr; simp at hnone
+    · rename_i fn1 hs1
+      rw [hs1] at h0
+      obtain ⟨g1, g2, g3, _, _⟩ := h0
+      have hp1 : fn1.params = w.fn.params := by have := g1 rfl; simpa using this
+      simp only [] at g2 g3
+      have hval : fn1.fval = f (values w.fn.params) := by rw [← hp1]; exact g2
+      have hLI0 : LI f params w.fn.params { w with fn := fn1, f3 := fn1.fval } (fun w => w.f3)
+          { w := { w with fn := fn1, f3 := fn1.fval }, p := [], lastVar := none } :=
+        ⟨g2, (by rw [hp1]; exact Dev.refl _ _), (fun l h => by cases h), Frame.refl _, rfl⟩
+      have hloop := loopGo_LI f (step5 f params) (fun lp h i var r => step5_LI f hc lp h i var r)
+        w.vars 0 _ hLI0
+      split at hr
+      · subst hr; simp at hnone
+      · rename_i lp hl
+        rw [hl] at hloop
+        obtain ⟨l1, l2, l3, l4, l5⟩ := hloop rfl
+        simp only [] at l4 l5
+        have hkeep0 : Keep w { w with fn := fn1, f3 := fn1.fval } := ⟨rfl, rfl, rfl, rfl, rfl, rfl, by simp [g3]⟩
+        obtain ⟨q1, q2, q3, _, _, q6⟩ := finish_spec f hc hpnd lp.lastVar false lp.w l1 l2
+          (fun h n hn => by rw [h] at hn; cases hn) (fun _ n hn => hn)
+          (fun n hn => l3 n hn.symm) r hr hnone
+        exact ⟨q1, q2, hkeep0.trans (l4.keep.trans q3), by rw [q6, l5, hval]⟩
+  · simp only [] at hr
+    have hown0 : Own ((w.fn.enable1 w.c1).enable2 w.c2) := by unfold Own; simp; exact hown
+    have hok0 : ((w.fn.enable1 w.c1).enable2 w.c2).OK f := enable2_OK f _ _ (enable1_OK f _ _ hok)
+    have h0 := first_set f ((w.fn.enable1 w.c1).enable2 w.c2) hown0 hok0 (by simpa using hsync) hpnd
+    split at hr
+    · subst hr; simp at hnone
+    · rename_i fn1 hs1
+      rw [hs1] at h0
+      obtain ⟨g1, g2, g3, _, _⟩ := h0
+      have hp1 : fn1.params = w.fn.params := by have := g1 rfl; simpa using this
+      subst hr
+      exact ⟨hp1, g2, ⟨rfl, rfl, rfl, rfl, rfl, rfl, by simpa using g3⟩, by simp only []; rw [← hp1]; exact g2⟩
 
 end Bpp.NumDeriv
